@@ -1,7 +1,9 @@
 package e2e
 
 import (
+	"crypto/tls"
 	"fmt"
+	"strings"
 	"testing"
 
 	"pgregory.net/rapid"
@@ -16,7 +18,8 @@ func init() {
 	pbt.Register("C18", "start", RunStartCfg)
 }
 
-var c18Entries = []string{"stream-rtp", "stream-rtp", "stream-rtcp", "stream-rtcp", "session-rtcp-reader", "session-rtcp-pub", "client-rtp", "client-rtp", "client-rtcp-pub", "client-rtcp-reader"}
+var c18Entries = []string{"stream-rtp", "stream-rtp", "stream-rtcp", "stream-rtcp", "session-rtcp-reader", "session-rtcp-pub", "session-rtp-reader", "session-rtp-reader",
+	"client-rtp", "client-rtp", "client-rtcp-pub", "client-rtcp-reader"}
 
 func genSizeCase(t *rapid.T) SizeCase {
 	c := SizeCase{
@@ -79,6 +82,9 @@ type StartCfg struct {
 	Who   string `json:"who"` // server client
 	Max   int    `json:"max"`
 	Queue int    `json:"queue"`
+	Proto string `json:"proto,omitempty"` // client: "", udp, tcp, mcast (forced protocol)
+	TLS   bool   `json:"tls,omitempty"`   // server with TLS / client with rtsps
+	UDP   bool   `json:"udp,omitempty"`   // server with UDP listeners
 }
 
 func RunStartCfg(c StartCfg) error {
@@ -86,12 +92,32 @@ func RunStartCfg(c StartCfg) error {
 	var err error
 	if c.Who == "server" {
 		s := &gortsplib.Server{RTSPAddress: "127.0.0.1:0", Handler: &Handler{}, MaxPacketSize: c.Max, WriteQueueSize: c.Queue}
+		if c.TLS {
+			s.TLSConfig = &tls.Config{Certificates: []tls.Certificate{TLSCert()}}
+		}
+		if c.UDP {
+			p := randomEvenPort()
+			s.UDPRTPAddress, s.UDPRTCPAddress = fmt.Sprintf("127.0.0.1:%d", p), fmt.Sprintf("127.0.0.1:%d", p+1)
+		}
 		err = s.Start()
 		if err == nil {
 			s.Close()
+		} else if strings.Contains(err.Error(), "address already in use") {
+			return nil
 		}
 	} else {
 		cl := &gortsplib.Client{Scheme: "rtsp", Host: "127.0.0.1:1", MaxPacketSize: c.Max, WriteQueueSize: c.Queue}
+		if c.TLS {
+			cl.Scheme = "rtsps"
+		}
+		switch c.Proto {
+		case "udp":
+			cl.Protocol = protoPtr(gortsplib.ProtocolUDP)
+		case "tcp":
+			cl.Protocol = protoPtr(gortsplib.ProtocolTCP)
+		case "mcast":
+			cl.Protocol = protoPtr(gortsplib.ProtocolUDPMulticast)
+		}
 		err = cl.Start()
 		if err == nil {
 			cl.Close()
@@ -105,7 +131,8 @@ func RunStartCfg(c StartCfg) error {
 
 func TestC18Start(t *testing.T) {
 	rapid.Check(t, func(rt *rapid.T) {
-		c := StartCfg{Who: rapid.SampledFrom([]string{"server", "client"}).Draw(rt, "who")}
+		c := StartCfg{Who: rapid.SampledFrom([]string{"server", "client"}).Draw(rt, "who"),
+			Proto: rapid.SampledFrom([]string{"", "udp", "tcp", "tcp", "mcast"}).Draw(rt, "proto"), TLS: rapid.Bool().Draw(rt, "tls"), UDP: rapid.Bool().Draw(rt, "udp")}
 		switch rapid.IntRange(0, 3).Draw(rt, "max_cat") {
 		case 0:
 			c.Max = 0
